@@ -230,12 +230,18 @@ int tls12_do_connect(TLS_CONNECT *conn)
 
 	// 准备Finished Context（和ClientVerify）
 	sm3_init(&sm3_ctx);
-	if (conn->client_certs_len)
-		sm2_sign_init(&sign_ctx, &conn->sign_key, SM2_DEFAULT_ID, SM2_DEFAULT_ID_LENGTH);
-
+	if (conn->client_certs_len) {
+		if (sm2_sign_init(&sign_ctx, &conn->sign_key, SM2_DEFAULT_ID, SM2_DEFAULT_ID_LENGTH) != 1) {
+			error_print();
+			goto end;
+		}
+	}
 
 	// send ClientHello
-	tls_random_generate(client_random);
+	if (tls_random_generate(client_random) != 1) {
+		error_print();
+		goto end;
+	}
 	int ec_point_formats[] = { TLS_point_uncompressed };
 	size_t ec_point_formats_cnt = 1;
 	int supported_groups[] = { TLS_curve_sm2p256v1 };
@@ -467,7 +473,11 @@ int tls12_do_connect(TLS_CONNECT *conn)
 	// generate MASTER_SECRET
 	tls_trace("generate secrets\n");
 	SM2_KEY client_ecdh;
-	sm2_key_generate(&client_ecdh);
+	if (sm2_key_generate(&client_ecdh) != 1) {
+		error_print();
+		tls_send_alert(conn, TLS_alert_internal_error);
+		goto end;
+	}
 	sm2_do_ecdh(&client_ecdh, &server_ecdhe_public, &server_ecdhe_public);
 
 	// 需要重新考虑在TLS中是用sm2_do_ecdh还是sm2_ecdh，sm2_ecdh对nistp256的兼容性更好			
@@ -768,7 +778,11 @@ int tls12_do_accept(TLS_CONNECT *conn)
 
 	// send ServerHello
 	tls_trace("send ServerHello\n");
-	tls_random_generate(server_random);
+	if (tls_random_generate(server_random) != 1) {
+		error_print();
+		tls_send_alert(conn, TLS_alert_internal_error);
+		goto end;
+	}
 	tls_record_set_protocol(record, conn->protocol);
 	if (tls_record_set_handshake_server_hello(record, &recordlen,
 		conn->protocol, server_random, NULL, 0,
@@ -805,7 +819,11 @@ int tls12_do_accept(TLS_CONNECT *conn)
 
 	// send ServerKeyExchange
 	tls_trace("send ServerKeyExchange\n");
-	sm2_key_generate(&server_ecdhe_key);
+	if (sm2_key_generate(&server_ecdhe_key) != 1) {
+		error_print();
+		tls_send_alert(conn, TLS_alert_internal_error);
+		goto end;
+	}
 	if (tls_sign_server_ecdh_params(&conn->sign_key,
 		client_random, server_random, TLS_curve_sm2p256v1, &server_ecdhe_key.public_key,
 		sigbuf, &siglen) != 1) {
